@@ -58,7 +58,7 @@ func containsCall(x ast.Expr) bool {
 // postCallTracks applies `callsite f trackresult g T: e` clauses: ghost g is assigned e after the call, with
 // `result` (result0, result1, ...) bound to what the call returned.
 func (e *Exec) postCallTracks(st *State, fn *types.Func, recv *Val, args []Val, res Val, x *ast.CallExpr) {
-	if x == nil || e.quiet || e.inContract > 0 || st.dead || len(e.frames) == 0 {
+	if x == nil || e.suppressSites() || e.inContract > 0 || st.dead || len(e.frames) == 0 {
 		return
 	}
 	fc := e.frames[0].contract
@@ -121,7 +121,7 @@ func (e *Exec) goSiteChecks(st *State, call *ast.CallExpr) {
 // closureSiteChecks: `callsite <localFuncVar> name: P` is checked where the function under contract calls one
 // of its local function values by name (and sets the called("<name>") ghost flag).
 func (e *Exec) closureSiteChecks(st *State, varName string, sig *types.Signature, args []Val, x *ast.CallExpr) {
-	if x == nil || e.quiet || e.inContract > 0 || st.dead || len(e.frames) != 1 {
+	if x == nil || e.suppressSites() || e.inContract > 0 || st.dead || len(e.frames) != 1 {
 		return
 	}
 	fc := e.frames[0].contract
